@@ -4,7 +4,8 @@
      op      init | pack | unpack | gen | tmap
      form    I (interpreted) | C (vp_compile) | D (dataclass; third token holds type annotations)
      fmts    [s:I,s:bits,c:Cls,l:Cls]             types  [bool,int,tv:varlenH,co:int,cs:Cls,se:Cls,other]
-     init    - | kw | nokw                         (no user __init__ | with **kwargs | without)
+     init    - | kw | nokw | super:<n>             (no user __init__ | with **kwargs | without | old-style
+                                                    superclass whose __init__ takes the first n names)
      defaults [b=d1>d1,c=d2>!]                     name=value>value-denoted-by-the-spliced-text ("!" = does not compile)
      fixpack / fixunpack  [a,c]                    fields with a hook
      args    [v0,N,v2]      kw  [k=v3]             values are opaque atoms; N is None
@@ -130,11 +131,13 @@ def step (_ : Unit) (toks : List String) : Unit × String :=
       some ("ok " ++ " ".intercalate parts)
     | [op, form, fmtsS, namesS, initS, dfS, fpS, fuS, argsS, kwS] =>
       let names ← items namesS
-      let userInit : Option Bool ← match initS with
-        | "-" => some none
-        | "kw" => some (some true)
-        | "nokw" => some (some false)
-        | _ => none
+      let (userInit, superN) : Option Bool × Nat ← match initS with
+        | "-" => some (none, 0)
+        | "kw" => some (some true, 0)
+        | "nokw" => some (some false, 0)
+        | other => match splitOnce other ':' with
+          | some ("super", n) => n.toNat?.map (fun k => (none, k))
+          | _ => none
       let (defaults, spliceTab) ← parseDefaults dfS
       let splice : Term → Option Term := fun t => match alookup spliceTab t.render with
         | some r => r
@@ -153,7 +156,7 @@ def step (_ : Unit) (toks : List String) : Unit × String :=
         | _ => do
           let fmts ← fitems.mapM parseFmt
           some (.ok { fmts := fmts, names := names, userInit := userInit, defaults := defaults,
-                      fixPack := fp, fixUnpack := fu })
+                      fixPack := fp, fixUnpack := fu, superArgs := names.take superN })
       match defE with
       | .error e => some (showErr e)
       | .ok d =>
